@@ -147,6 +147,24 @@ def work_exact(arg):
             elif abs(rb - ob.value.model.rmse) > 1e-10 * max(rb, 1e-300) + 1e-15:
                 out['viol'].append(core.make_violation({'check': 'rmse-identity', 'model': name, 'budget': 'limited'},
                                                        f'{name} (max_nfev={budget}): reported rmse {ob.value.model.rmse:.12g}, recomputed {rb:.12g}', {'model': name}, rb, ob.value.model.rmse))
+    # verbose=True (log lines, a graph of the fit) changes nothing in the fitted model: parameters, reported error, error identity
+    if npts <= 12:
+        import matplotlib
+        matplotlib.use('Agg')
+        import matplotlib.pyplot as plt
+        ov = core.call(fit, name, p, n, verbose=True)
+        plt.close('all')
+        out['ev'] += 1
+        if ov.ok:
+            out['nt'] += 1
+            rv = recomputed_rmse(ov.value, p, n)
+            same = all(abs(ov.value.model.params[k] - iso.model.params[k]) <= 1e-12 * max(1.0, abs(iso.model.params[k])) for k in iso.model.params)
+            if not same or abs(ov.value.model.rmse - iso.model.rmse) > 1e-12 * max(iso.model.rmse, 1e-300) + 1e-15 or abs(rv - ov.value.model.rmse) > 1e-10 * max(rv, 1e-300) + 1e-15:
+                out['viol'].append(core.make_violation({'check': 'verbose-changes-the-fit', 'model': name},
+                                                       f'{name} fitted with verbose=True: parameters {ov.value.model.params}, reported rmse {ov.value.model.rmse:.6g} (recomputed {rv:.6g}); '
+                                                       f'with verbose=False: {iso.model.params}, rmse {iso.model.rmse:.6g}', {'model': name}, iso.model.rmse, ov.value.model.rmse))
+        else:
+            out['viol'].append(core.make_violation({'check': 'verbose-changes-the-fit', 'model': name, 'what': 'raises'}, f'{name} fitted with verbose=True {ov.brief()[:200]}', {'model': name}))
     return out
 
 
